@@ -769,7 +769,8 @@ def main():
                          "rustc nightly's MIR dump reflects the code the stable compiler builds", "z3 / cvc5 are sound"]
     ev["wall_s"] = round(time.time() - t0, 1)
     ev["violations"] = len(violations)
-    json.dump(ev, open("/verif/evidence/C16.json", "w"), indent=1)
+    if not os.environ.get("VERIF_NO_EVIDENCE"):
+        json.dump(ev, open("/verif/evidence/C16.json", "w"), indent=1)
     print("[C16 %s] %d rules, %d proved, %d violation(s), %d inconclusive, %d known finding(s), wall %.0fs" %
           (tier, nrules, nontrivial, len(violations), len(inconclusive), len(known_hits), time.time() - t0))
     return 1 if violations else (2 if inconclusive else 0)
